@@ -374,7 +374,10 @@ class URL:
     def __repr__(self) -> str:
         url = str(self)
         if self.password:
-            url = str(self.replace(password="********"))
+            try:
+                url = str(self.replace(password="********"))
+            except ValueError:  # a netloc that does not survive being rebuilt
+                url = url.replace(self.password, "********")
         return f"{self.__class__.__name__}({repr(url)})"
 
 
